@@ -454,28 +454,43 @@ Qed.
 
 
 (* ------------------------------------------------------------------ closed, not yet reaped *)
-(* FULL STATEMENT (refuted on HEAD 97f9e93, regression of fix 08f23bc): reaping closed clients
-   (rfbClientConnectionGone) never touches freed memory, i.e. [step st OpReap] never fails.
-   Witness: a scaled client is closed (rfbCloseClient: sock = -1, still in the client list), the
-   application installs a new framebuffer BEFORE the next rfbProcessEvents: the re-pointing loop of
-   rfbNewFramebuffer uses rfbGetClientIterator, which skips closed clients, the stale scaled screen
-   is freed, and the reaping then does cl->scaledScreen->scaledScreenRefCount-- on it. *)
+(* Reaping closed clients (rfbClientConnectionGone) never touches a freed scaled screen: since fix_C16_3
+   the re-pointing loop of rfbNewFramebuffer also visits the clients that are closed but not yet reaped.
+   The former witness: a scaled client is closed, the application installs a new framebuffer before the
+   next rfbProcessEvents, then the client is reaped. *)
 Definition f12c_ops : list op :=
   [OpSetCursor None; OpAddClient; OpSetEncodings 0 false true true false; OpSetScale 0 2; OpSend 0;
    OpClose 0; OpNewFB 24 16 4 7].
 
-Lemma reap_dangling_after_newfb :
-  exists st, run (init_state 12 8 4) f12c_ops = Some st /\ Inv st /\ step st OpReap = None.
+Lemma reap_ok_after_newfb :
+  exists st st', run (init_state 12 8 4) f12c_ops = Some st /\ Inv st /\ step st OpReap = Some (st', []) /\ Inv st'.
 Proof.
   destruct (run (init_state 12 8 4) f12c_ops) as [st|] eqn:E; [|vm_compute in E; discriminate].
-  exists st. split; [reflexivity|]. split.
-  - apply (run_inv f12c_ops (init_state 12 8 4) st); [apply init_inv; lia| |exact E].
+  assert (HI : Inv st).
+  { apply (run_inv f12c_ops (init_state 12 8 4) st); [apply init_inv; lia| |exact E].
     unfold f12c_ops.
     repeat (split; [first [exact Logic.I | solve [cbn; repeat split; lia]] |
                     let st' := fresh "st" in let out := fresh "out" in let Hs := fresh "Hs" in
                     intros st' out Hs; vm_compute in Hs; inversion Hs; subst; clear Hs]).
-    exact Logic.I.
-  - vm_compute in E. inversion E; subst. vm_compute. reflexivity.
+    exact Logic.I. }
+  assert (Es : exists st', step st OpReap = Some (st', [])).
+  { unfold step. cbn [op_target step0].
+    replace (existsb cDangling (sClients st)) with false by (vm_compute in E; inversion E; subst; vm_compute; reflexivity).
+    eexists. reflexivity. }
+  destruct Es as [st' Es]. exists st, st'. split; [reflexivity|]. split; [exact HI|]. split; [exact Es|].
+  exact (step_inv st OpReap st' [] HI Logic.I Es).
+Qed.
+
+(* in general: rfbNewFramebuffer leaves no client with a dangling scaled screen *)
+Lemma rescale_client_not_dangling w h oW oH chain c :
+  cDangling (snd (rescale_client w h oW oH chain c)) = false.
+Proof.
+  unfold rescale_client, rescale_visits, newfb_rescale_visits_closed, cClosed, cLive, cDangling.
+  destruct (xLife (cExt c) =? 0) eqn:E0; destruct (xLife (cExt c) =? 1) eqn:E1; destruct (xLife (cExt c) =? 3) eqn:E3;
+    cbn [orb andb negb snd]; try lia.
+  all: try (destruct c; cbn; reflexivity).
+  all: destruct (cScaled c) as [[sw sh]|]; cbn [snd]; try (rewrite E3; reflexivity);
+       try (match goal with |- context [if ?b then _ else _] => destruct b end; destruct c; cbn in *; assumption).
 Qed.
 
 (* the provable part: reaping only fails in that situation *)
